@@ -8,8 +8,8 @@ import itertools
 
 PROGRAMS = [
     # (source, [argument tuples])
-    ("def f(a: int, rest: list, fl: float, by: bytes, bo: bool):\n    t = (a, *rest, fl, by, bo)\n    return [t[0], t[-1], t[-2], t[-3], t[1] if len(t) > 4 else None, t[-4]]\n",
-     [(1, [], 1.5, b"b", True), (1, ["s"], 1.5, b"b", False), (1, ["s", "t"], 2.5, b"", True)]),
+    ("def f(a: int, rest: list, fl: float, by: bytes, s: str):\n    t = (a, *rest, fl, by, s)\n    return [t[0], t[-1], t[-2], t[-3], t[1] if len(t) > 4 else None, t[-4]]\n",
+     [(1, [], 1.5, b"b", "x"), (1, ["s"], 1.5, b"b", "y"), (1, ["s", "t"], 2.5, b"", "z")]),
     ("def f(t: tuple):\n    a, *mid, z = t\n    return (a, mid, z)\n", [((1, "x", 2.5),), ((1, 2),), ((1, "a", "b", None),)]),
     ("def f(x: int):\n    if x > 1:\n        y = 'big'\n    elif x == 1:\n        y = None\n    else:\n        y = 0\n    return y\n", [(0,), (1,), (5,)]),
     ("from typing import Optional\ndef f(x: Optional[int]):\n    if x is None:\n        return 'none'\n    return x + 1\n", [(None,), (3,)]),
